@@ -6,8 +6,9 @@ CONFIG = dict(
         dict(suffix="-infl", comparisons=[dict(name="inflector", code=700, kind="eq")]),
         dict(suffix="-cat", comparisons=[dict(name="concat", code=701, kind="eq")]),
         dict(suffix="", comparisons=[
-            dict(name="model", code=705, kind="eq"),
-            dict(name="spec", code=703, kind="holds", predicate=True),
+            dict(name="model", code=702, kind="eq"),
+            dict(name="names-values-units", code=703, kind="holds", predicate=True),
+            dict(name="sample-group-names", code=706, kind="holds", predicate=True),
         ]),
     ],
     timeout=3000,
